@@ -21,7 +21,6 @@ RULE = ('configurations: text/binary mode x write pattern (0-6 chunks with sizes
         'trace: exactly one publication (rename/replace/link onto the destination) from the same directory, after the last write, a flush '
         'and an fsync of the part file. non-trivial = a crash point at or after the first byte handed to the part file. '
         'distinct = distinct (configuration, crash point) pairs.')
-RULE += ' Round 6: the AtomicSaver object under test may have been used before for an attempt whose body raised (api reuse_aborted); the trace oracle and the crash enumeration apply to the retry through the same object.'
 ASSUMPTIONS = [
     'crash points are exhaustive for the recorded event trace of each configuration; crashes inside a system call and kernel/file-system bugs are out of reach',
     'rename/link/unlink are atomic and durable in program order (POSIX); file data is durable only up to the last fsync/fdatasync of that file',
